@@ -39,7 +39,7 @@ var c07Enum = func() [][]int {
 	for tr := 0; tr < 3; tr++ {
 		for src := range c07Sources {
 			for b := range c07Breaks {
-				out = append(out, []int{1, tr, src, b})
+				out = append(out, []int{1, 1, tr, src, b}) // workers, mode = enumerated, transport, source, break
 			}
 		}
 	}
@@ -52,6 +52,9 @@ func TestVerifC07(t *testing.T) {
 		Scenario: c07Scenario,
 		EnumN:    func(string) int { return len(c07Enum) },
 		EnumAt:   func(_ string, i int) []int { return c07Enum[i] },
+		EnumLabels: func(string, int) []string {
+			return []string{"workers", "mode", "transport", "source", "break"}
+		},
 		Runs:     map[string]int{"quick": 20000, "thorough": 800000},
 		Real:     []string{"ingest pipeline: HandleRegUpdates -> parseRegMessage -> NewRegistrationC2SWrapper -> ingestRegistration", "ValidateRegistration, covert policy, phantom blocklist, register/announce", "tryShareRegistrationOverAPI / GenerateC2SWrapper", "min / prefix / obfs4 parameter parsing and port selection"},
 		Stub:     []string{"liveness.Tester (table + call recorder)", "peer-station API (http.Post seam, recorder)", "detector (announcement recorder)", "ZMQ (harness writes into the ingest channel)"},
